@@ -87,13 +87,15 @@ Definition spec_text_ok (b : bstr) (r : val) : bool :=
    an I/O error it is the old content, and "not written" comes with no calls at all *)
 Definition spec_update_ok (b : bstr) (r : val) : bool :=
   let '(_, s) := dec_update b in
-  let old := enc_opt (file_data s P) in
+  (* the recorded states are coded: None = no file, 1 = the old content, 2 = the new text *)
+  let old := match file_data s P with Some _ => VZ 1 | None => VNone end in
   match r with
   | VL [VB wr; VL ops; VL crash; VL eio] =>
       let new := match last crash VNone with VL [m; _] => m | _ => VNone end in
       forallb (fun st => match st with VL [m; _] => val_eqb m old || val_eqb m new | _ => false end) crash
       && forallb (fun st => match st with VL [m; _] => val_eqb m old | _ => false end) eio
       && (wr || match ops with [] => val_eqb new old | _ => false end)
+      && (negb wr || val_eqb new (VZ 2) || val_eqb new old)
   | VErr _ => true
   | _ => false
   end.
